@@ -4,6 +4,8 @@
 //! Samples travel as small integer labels; pointers only as offsets from the test buffer's base.
 #[path = "../util.rs"]
 mod util;
+#[path = "../userframe.rs"]
+mod userframe;
 use dasp_frame::Frame;
 use dasp_sample::{types::I24, Sample};
 use std::alloc::{GlobalAlloc, Layout, System};
@@ -435,9 +437,49 @@ fn ops_one(st: &mut Stream, rng: &mut Rng, name: &str, fmt: &str, n: usize, la: 
 /// lengths in the thousands that are not multiples of typical block sizes (and some that are)
 const BIG: [usize; 7] = [1023, 1024, 1025, 2047, 2500, 4099, 10_000];
 
+/// the in-place operations are generic over `F: Frame`: a frame type of the user's own (userframe.rs: padded, channels
+/// stored in reverse order) must come out as the element-wise frame operation too (oracle only)
+fn user_frame_ops(st: &mut Stream, rng: &mut Rng) {
+    use userframe::Odd3;
+    for la in 0..=5usize { for lb in [la, la + 1, la.saturating_sub(1)] {
+        let av: Vec<[f32; 3]> = (0..la).map(|_| [rng.range(-64, 64) as f32 / 8.0, rng.range(-64, 64) as f32 / 8.0, rng.range(-64, 64) as f32 / 8.0]).collect();
+        let bv: Vec<[f32; 3]> = (0..lb).map(|_| [rng.range(-64, 64) as f32 / 8.0, rng.range(-64, 64) as f32 / 8.0, rng.range(-64, 64) as f32 / 8.0]).collect();
+        let gain = [0.5f32, -0.25, 2.0];
+        for name in ["equilibrium", "map", "zipmap", "write", "add", "addamp", "add_onto_array"] {
+            let mut a: Vec<Odd3> = av.iter().map(|c| Odd3::new(*c)).collect();
+            let b: Vec<Odd3> = bv.iter().map(|c| Odd3::new(*c)).collect();
+            let mut arr = av.clone();
+            let case = format!("user frame Odd3 (3 x f32, padded, reversed): {} on a = {:?}, b = {:?}", name, av, bv);
+            mark(0, &case);
+            let two = !matches!(name, "equilibrium" | "map");
+            let r = guarded(|| match name {
+                "equilibrium" => dasp_slice::equilibrium(&mut a[..]),
+                "map" => dasp_slice::map_in_place(&mut a[..], |f| Odd3::new([f.get()[0] * 2.0 + 1.0, f.get()[1], -f.get()[2]])),
+                "zipmap" => dasp_slice::zip_map_in_place(&mut a[..], &b[..], |x, y: Odd3| Odd3::new([x.get()[0] * 3.0 + y.get()[0], y.get()[1], x.get()[2]])),
+                "write" => dasp_slice::write(&mut a[..], &b[..]),
+                "add" => dasp_slice::add_in_place(&mut a[..], &b[..]),
+                "addamp" => dasp_slice::add_in_place_with_amp_per_channel(&mut a[..], &b[..], Odd3::new(gain)),
+                _ => dasp_slice::add_in_place(&mut arr[..], &b[..]),
+            });
+            let got: Vec<[f32; 3]> = if name == "add_onto_array" { arr.clone() } else { a.iter().map(|f| f.get()).collect() };
+            let want: Option<Vec<[f32; 3]>> = if two && la != lb { None } else { Some((0..la).map(|i| { let (x, y) = (av[i], if two { bv[i] } else { [0.0; 3] }); match name {
+                "equilibrium" => [0.0; 3], "map" => [x[0] * 2.0 + 1.0, x[1], -x[2]], "zipmap" => [x[0] * 3.0 + y[0], y[1], x[2]], "write" => y,
+                "addamp" => [x[0] + y[0] * gain[0], x[1] + y[1] * gain[1], x[2] + y[2] * gain[2]], _ => [x[0] + y[0], x[1] + y[1], x[2] + y[2]] } }).collect()) };
+            let pads = a.iter().all(|f| f.pad_intact());
+            match (&want, r.is_some()) {
+                (Some(w), true) if *w == got && pads => st.oracle_ok(la as u64 + 1),
+                (None, false) if got == av => st.oracle_ok(1),
+                _ => st.oracle_fail("in-place slice operation on a user-defined frame type differs from the element-wise frame operation (or a length mismatch was not refused before modifying anything)", &case, &format!("{:?}", want), &format!("{} {:?} padding intact: {}", if r.is_some() { "returned" } else { "panicked" }, got, pads)),
+            }
+            st.count("user_frame_type_ops");
+        }
+    } }
+}
+
 fn run_ops(a: &Args) {
     let mut st = Stream::new(&a.out, "ops");
     let mut rng = Rng::new(a.seed, "ops");
+    user_frame_ops(&mut st, &mut rng);
     let ns: Vec<usize> = if a.thorough() { (1..=32).collect() } else { vec![1, 2, 3, 4, 8, 32] };
     const OPS: [&str; 6] = ["equilibrium", "map", "zipmap", "write", "add", "addamp"];
     for fmt in FMTS { for &n in ns.iter() { for name in OPS {
